@@ -76,6 +76,10 @@ type Term struct {
 	// the term equals X mod RadC for the dividend X of the mixed-radix decomposition Rad
 	Rad                    *radix
 	RadHi, RadLo, RadUnit int64
+	// INT mode: the term is the sum of these addends (no wrap-around)
+	Sum []Int
+	// Real terms: candidate for floor(term), to be confirmed by the solver
+	FloorCand *Term
 }
 
 type Int struct {
